@@ -4,6 +4,7 @@ import (
 	"fmt"
 	"math/rand"
 	"net"
+	"os"
 	"sort"
 	"strconv"
 	"strings"
@@ -381,8 +382,9 @@ func c01History(c *ctx, ci int, cf c01Config, nbar int) {
 		}
 		m.nodes[n.Name] = n
 	}
+	var pushedIdx uint64
 	push := func() {
-		rg.agent.Update(func(nodes map[string]*fakeconsul.Node, insts map[string]*fakeconsul.Instance) {
+		pushedIdx = rg.agent.Update(func(nodes map[string]*fakeconsul.Node, insts map[string]*fakeconsul.Instance) {
 			for k := range nodes {
 				delete(nodes, k)
 			}
@@ -402,13 +404,14 @@ func c01History(c *ctx, ci int, cf c01Config, nbar int) {
 			}
 		})
 	}
-	pushManual := func() {
+	manualText := func() string {
 		var lines []string
 		for _, d := range m.manual {
 			lines = append(lines, d.Text())
 		}
-		rg.setManual(strings.Join(lines, "\n"))
+		return strings.Join(lines, "\n")
 	}
+	pushManual := func() { rg.setManual(manualText()) }
 	// background poller for the no-resurrection clause
 	var stop atomic.Bool
 	var pollWG sync.WaitGroup
@@ -438,6 +441,7 @@ func c01History(c *ctx, ci int, cf c01Config, nbar int) {
 		dst          string
 		after        time.Time // barrier completed: fabio has observed the unhealthy state
 		healedBefore time.Time
+		notRaw       string // quiet step: the table that was active before the state changed is not a newly installed one
 	}
 	var events []*unhealthyEvent
 	names := []string{"web", "api", "db", "cache"}
@@ -570,6 +574,63 @@ func c01History(c *ctx, ci int, cf c01Config, nbar int) {
 				e.healedBefore = pushTime // healed by the step pushed now: later sightings are legitimate
 			}
 		}
+		if b%8 == 5 && b%25 != 24 {
+			// an update that changes nothing (Consul wakes the watcher although the passing set is the same) directly
+			// followed by this step's change, and then nothing: no tick of the barrier helps the table along, it must
+			// reach the registry's state on its own
+			// no spontaneous wake-ups meanwhile: the fake agent's blocking queries normally time out after 2s (which
+			// makes fabio rebuild its configuration), a real agent's after 5 minutes or more
+			rg.agent.SetDefaultWait(60 * time.Second)
+			quiet := rg.agent.Update(func(map[string]*fakeconsul.Node, map[string]*fakeconsul.Instance) {})
+			if !rg.agent.WaitHealthQuery(quiet, barrierWatchdog) {
+				c.R.Inconcl("config %d step %d: health watcher did not come back", ci, b)
+				break
+			}
+			time.Sleep(20 * time.Millisecond) // let the unchanged configuration travel through the update loop
+			// Nothing but this step changes the registry now, so every table that differs from the active one and shows
+			// up after the push was installed after fabio observed the new state: it must not contain an instance
+			// the step made unhealthy (checked against the poller's observations at the end).
+			if preRaw, err := rg.rawRoutes(); err == nil {
+				tPush := time.Now()
+				for k := range healthyPrev {
+					if !healthyNow[k] {
+						events = append(events, &unhealthyEvent{dst: k, after: tPush, notRaw: preRaw})
+						c.R.Count("quiet_update_removals", 1)
+					}
+				}
+			}
+			push()
+			if manualText() != rg.manual {
+				pushManual() // only when the step changed the manual commands: an unchanged KV write is an update of its own
+			}
+			if !rg.agent.WaitHealthQuery(pushedIdx, barrierWatchdog) {
+				c.R.Inconcl("config %d step %d: health watcher did not come back", ci, b)
+				break
+			}
+			want := m.expected(cf.Status, strict)
+			dl := time.Now().Add(10 * time.Second)
+			var last string
+			converged := true
+			for {
+				got, err := rg.routes()
+				if err == nil {
+					if last = c01Compare(want, got); last == "" {
+						break
+					}
+				}
+				if time.Now().After(dl) {
+					converged = false
+					break
+				}
+				time.Sleep(50 * time.Millisecond)
+			}
+			if !converged {
+				c.R.Violate("c01:table-does-not-converge-after-quiet-update", fmt.Sprintf("config checksRequired=%s: fabio fetched the registry's new state (steps %v) right after an update that changed nothing; 10s later, registry quiescent and no blocking query timing out, the table still differs:\n%s", cf.Required, steps, last), map[string]any{"steps": steps})
+				return
+			}
+			rg.agent.SetDefaultWait(2 * time.Second)
+			c.R.Count("quiet_update_convergences", 1)
+		}
 		if b%25 == 24 {
 			// a transient catalog failure while fabio builds the configuration for the new state, followed by
 			// quiescence: the table must still converge (bounded: the fake agent's blocking queries return after 2s)
@@ -644,10 +705,20 @@ func c01History(c *ctx, ci int, cf c01Config, nbar int) {
 			if !e.healedBefore.IsZero() && !o.t.Before(e.healedBefore) {
 				continue
 			}
+			if e.notRaw != "" && o.raw == e.notRaw {
+				continue
+			}
+			if e.notRaw != "" && os.Getenv("VERIF_DEBUG") != "" {
+				fmt.Fprintf(os.Stderr, "DEBUG quiet event %q: table at +%s has %d bytes, contains dst: %v\n", e.dst, o.t.Sub(e.after), len(o.raw), strings.Contains(o.raw, strings.SplitN(e.dst, " ", 2)[1]))
+			}
 			p := strings.SplitN(e.dst, " ", 2)
 			for _, ln := range strings.Split(o.raw, "\n") {
 				f := strings.Fields(ln)
 				if len(f) >= 5 && f[2] == p[0] && f[4] == p[1] {
+					if e.notRaw != "" {
+						c.R.Violate("c01:unhealthy-instance-in-new-table", fmt.Sprintf("%s became unhealthy in a quiescent registry (the only change, pushed right after an update that changed nothing); a table different from the previously active one, fetched %s after the push, still contains it:\n%s", e.dst, o.t.Sub(e.after), ln), nil)
+						return
+					}
 					c.R.Violate("c01:unhealthy-instance-resurrected", fmt.Sprintf("%s was observed unhealthy (table without it installed and confirmed by a barrier) but a later table contains it again before it was healed (seen %s after the barrier):\n%s", e.dst, o.t.Sub(e.after), ln), nil)
 					return
 				}
